@@ -2,7 +2,8 @@
 (* C03 - multichannel expansion follows the wrap-and-zip law everywhere.
 
    Values are trees.  A node is a record [k, a, c, s, v]:
-     k = "a"  an atom (argument leaf): a = its id; atoms are numbers, units, opaque tuples ...
+     k = "a"  an atom (argument leaf): a = its id; atoms are numbers (also literal 0 / 0.0 and
+              False / True), units, opaque tuples
      k = "l"  a list (Python list or ChannelList): v = sequence of nodes
      k = "c"  (expected trees) the single-channel call on the atoms c = <<id, ...>>, one per argument
      k = "v"  (observed trees) a projected value: s = canonical text of a number / unit / tuple
@@ -131,13 +132,15 @@ CONSTANTS Templates,    \* set of template names (see Tpl)
 VARIABLES args, kinds, phase
 vars == <<args, kinds, phase>>
 
-ua == "ua"  uk == "uk"  tu == "t"  ze == "z"  nu == "n"
+ua == "ua"  uk == "uk"  tu == "t"  ze == "z"  nu == "n"  bo == "b"     \* z: literal 0 / 0.0, b: False / True
 Tpl(name) ==
     CASE name = "n" -> KAtom(nu)
       [] name = "u" -> KAtom(ua)
       [] name = "k" -> KAtom(uk)
       [] name = "t" -> KAtom(tu)
       [] name = "z" -> KAtom(ze)
+      [] name = "b" -> KAtom(bo)
+      [] name = "Lf" -> List(<<KAtom(ua), KAtom(ze), KAtom(bo)>>)        \* falsy literals next to a unit
       [] name = "L1" -> List(<<KAtom(ua)>>)
       [] name = "L2" -> List(<<KAtom(nu), KAtom(ua)>>)
       [] name = "L2u" -> List(<<KAtom(ua), KAtom(uk)>>)
